@@ -125,21 +125,28 @@ def exprability(s):
 
 
 def _exprability(s):
+    """'yes': both readings of "is an expression" agree that it is (eval() would take it, and the dedented text is a
+    single expression statement); 'no': neither; 'maybe': they differ (leading indentation before a multi-line text,
+    `yield`, a starred item, ...) — then either behaviour is accepted."""
     try:
         ast.parse(s.strip(" \t"), mode="eval")
-        return "yes"
+        as_eval = True
     except (SyntaxError, ValueError, MemoryError, RecursionError):
-        pass
+        as_eval = False
+    as_stmt = False
     try:
         src = textwrap.dedent(s)
         if not src.endswith("\n"):
             src += "\n"
         m = ast.parse(src, mode="exec")
-        if len(m.body) == 1 and isinstance(m.body[0], ast.Expr):
-            return "maybe"
+        as_stmt = len(m.body) == 1 and isinstance(m.body[0], ast.Expr)
     except (SyntaxError, ValueError, MemoryError, RecursionError):
         pass
-    return "no"
+    if as_eval and as_stmt:
+        return "yes"
+    if not as_eval and not as_stmt:
+        return "no"
+    return "maybe"
 
 
 def py_is_identifier(s):
